@@ -59,6 +59,8 @@ KANI = {
     'C11': [K('precis-profiles', 'usernames::verif_kani::tbl_width'), K('precis-profiles', 'usernames::verif_kani::width_values_scalar'),
             K('precis-profiles', 'usernames::verif_kani::width_idempotent')],
     'C12': [K('precis-profiles', 'common::verif_kani::tbl_zs'), K('precis-profiles', 'common::verif_kani::zs_space')],
+    # every rule function over a 5-element state space, every start, borrowed/owned: result AND exact number of applications
+    'C13': [K('precis-core', 'profile::verif_kani::stabilize_state_machines')],
     'C14': [K('precis-core', CC + t) for t in CORE_TABLES_QUICK] + [K('precis-core', CC + t, False) for t in CORE_TABLES_SLOW],
     # end-to-end for the two pinned data sets: files -> parse -> generate -> emit -> compile -> lookup == UCD oracle
     'C15': [K('precis-profiles', 'common::verif_kani::tbl_zs'), K('precis-profiles', 'usernames::verif_kani::tbl_width'),
